@@ -250,7 +250,7 @@ theorem LiveInv_padd {s : St} {w : World} (h : LiveInv s w) (p : PodObj)
   · intro v hv
     rw [ev] at hv
     rcases List.mem_cons.1 hv with rfl | hv
-    · exact ⟨p, List.mem_cons_self, rfl, rfl, Or.inl (by rw [hrs, hq]), fun _ => ⟨rfl, rfl, rfl⟩⟩
+    · exact ⟨p, List.mem_cons_self, rfl, rfl, Or.inl (by rw [hrs, hq]), ⟨rfl, rfl, rfl⟩⟩
     · obtain ⟨o, ho, a1, a2, a3, a4⟩ := h.vobj v hv
       exact ⟨o, List.mem_cons_of_mem _ ho, a1, a2, by rw [hrs]; exact a3, a4⟩
   · intro o ho
@@ -298,7 +298,8 @@ theorem step_padd_ok (p : PodObj) : LiveStepOK (.padd p) := by
 /-! ### OnPodDelete -/
 
 theorem mgrPodDelete_eff (s : St) (q : Nat) (p : PodObj) (hk : s.known.contains q = true)
-    (hh : hasE s q p.id = true) (hr : 0 ≤ getC s.req q - p.req)
+    (hh : hasE s q p.id = true) {c : PodObj} (hc : cachedObj s q p.id = some c) (hcid : c.id = p.id)
+    (hcr : c.req = p.req) (hr : 0 ≤ getC s.req q - p.req)
     (hu : isAssigned s q p.id = true → 0 ≤ getC s.used q - p.req) :
     view (mgrPodDelete s q p) = (view s).filter (fun v => !(v.1 == q && v.2.1 == p.id)) ∧
     (∀ q' pid, hasE (mgrPodDelete s q p) q' pid = (hasE s q' pid && !(q' == q && pid == p.id))) ∧
@@ -310,7 +311,7 @@ theorem mgrPodDelete_eff (s : St) (q : Nat) (p : PodObj) (hk : s.known.contains 
   have hk' : q ∈ s.known := by simpa using hk
   cases ha : isAssigned s q p.id
   · have e : mgrPodDelete s q p = delE (reqD s q (-p.req)) q p.id := by
-      unfold mgrPodDelete; simp [hk', hh, ha]
+      unfold mgrPodDelete; simp [hk', hh, hc, hcid, hcr, ha]
     rw [e]
     refine ⟨by simp [view_delE], fun q' pid => by simp [hasE_delE], fun q' pid => by simp [isAssigned_delE],
       fun q' => ?_, fun q' => by simp, by simp, by simp⟩
@@ -319,7 +320,7 @@ theorem mgrPodDelete_eff (s : St) (q : Nat) (p : PodObj) (hk : s.known.contains 
     split <;> omega
   · have hu := hu ha
     have e : mgrPodDelete s q p = delE (usedD (reqD s q (-p.req)) q (-p.req)) q p.id := by
-      unfold mgrPodDelete; simp [hk', hh, ha]
+      unfold mgrPodDelete; simp [hk', hh, hc, hcid, hcr, ha]
     rw [e]
     refine ⟨by simp [view_delE], fun q' pid => by simp [hasE_delE], fun q' pid => by simp [isAssigned_delE],
       fun q' => ?_, fun q' => ?_, by simp, by simp⟩
@@ -333,6 +334,23 @@ theorem mgrPodDelete_eff (s : St) (q : Nat) (p : PodObj) (hk : s.known.contains 
 theorem mgrPodDelete_noop (s : St) (q : Nat) (p : PodObj) (h : hasE s q p.id = false) :
     mgrPodDelete s q p = s := by
   unfold mgrPodDelete; simp [h]
+
+theorem hasE_mgrPodDelete_le (s : St) (q : Nat) (p : PodObj) (q' pid : Nat)
+    (h : hasE (mgrPodDelete s q p) q' pid = true) : hasE s q' pid = true := by
+  unfold mgrPodDelete at h
+  split at h
+  · exact h
+  · simp only [] at h
+    split at h <;> (rw [hasE_delE] at h; simp at h; exact h.1)
+
+theorem mgrPodDelete_known (s : St) (q : Nat) (p : PodObj) : (mgrPodDelete s q p).known = s.known := by
+  unfold mgrPodDelete; split
+  · rfl
+  · simp only []; split <;> simp
+theorem mgrPodDelete_store (s : St) (q : Nat) (p : PodObj) : (mgrPodDelete s q p).store = s.store := by
+  unfold mgrPodDelete; split
+  · rfl
+  · simp only []; split <;> simp
 
 theorem Pairwise_filter_ids {l : List PodObj} (h : NodupIds l) (g : PodObj → Bool) : NodupIds (l.filter g) :=
   List.Pairwise.sublist List.filter_sublist h
@@ -350,9 +368,10 @@ theorem LiveInv_pdel_at {s : St} {w : World} (h : LiveInv s w) {p : PodObj} (hp 
   have hu : isAssigned s q p.id = true → 0 ≤ getC s.used q - p.req := by
     intro ha
     rw [h.used]; have := sumBy_ge_point hp (fun x => isAssigned s q x.id) ha h.nn; omega
-  obtain ⟨ev, eh, ea, er, eu, ek, es⟩ := mgrPodDelete_eff s q p hk hh hr hu
+  obtain ⟨c, hc, hcid, hcag⟩ := h.cached hp hh
+  obtain ⟨ev, eh, ea, er, eu, ek, es⟩ := mgrPodDelete_eff s q p hk hh hc hcid hcag.2.2 hr hu
   have hrs : ∀ x, resolve (mgrPodDelete s q p) x = resolve s x := fun x => resolve_congr ek es x
-  clear hr hu hk
+  clear hr hu hk hc
   generalize mgrPodDelete s q p = s' at *
   have hmem : ∀ o, o ∈ w.drop p.id ↔ (o ∈ w.alive ∧ o.id ≠ p.id) := by
     intro o; simp [World.drop, List.mem_filter]
@@ -586,13 +605,9 @@ theorem step_pdel_ok (p : PodObj) : LiveStepOK (.pdel p) := by
       split
       · rename_i hne
         apply mgrPodDelete_noop
-        cases hx : hasE s dflt p.id
-        · unfold mgrPodDelete
-          split
-          · exact hx
-          · simp only []
-            split <;> simp [hasE_delE, hx]
-        · exact absurd (one_loc h.vnd hx hh).symm hne
+        cases hx : hasE (mgrPodDelete s (resolve s p) p) dflt p.id
+        · rfl
+        · exact absurd (one_loc h.vnd (hasE_mgrPodDelete_le _ _ _ _ _ hx) hh).symm hne
       · rfl
     rw [e0]
     exact LiveInv_pdel_at h hp _ (resolve_known s p h.k1) hh
